@@ -490,7 +490,7 @@ class Sym:
             if k in ("BinaryOperator", "CompoundAssignOperator") and m.get("opcode", "").endswith("=") and \
                     m.get("opcode") not in ("==", "!=", "<=", ">="):
                 l = cx(kids(m)[0])
-                if l in self.tracked or l in self.results or l in self.variables:
+                if l in self.tracked or l in self.results or l in self.variables or l in getattr(self, "flags", ()):
                     return True
         return False
 
@@ -511,7 +511,27 @@ class Sym:
             ", ".join("(%s, %s)" % (lean_str(a), lean_str(b)) for a, b in state["writes"]),
             lean_str(state["res"]), lean_list(state["asked"]), lean_str(how))
 
+    def intval(self, n, state):
+        """value of an expression that is an integer literal or a local flag whose value is known on this path"""
+        n = strip(n)
+        if n.get("kind") == "IntegerLiteral":
+            return int(n["value"])
+        if n.get("kind") == "DeclRefExpr":
+            v = state["ints"].get(n["referencedDecl"]["name"])
+            return v
+        if n.get("kind") == "UnaryOperator" and n.get("opcode") == "!" :
+            v = self.intval(kids(n)[0], state)
+            return None if v is None else int(not v)
+        return None
+
     def rhs(self, n, state):
+        m = strip(n)
+        # `flag ? a : b` with a flag whose value is known on this path (single-exit style)
+        if m.get("kind") == "ConditionalOperator":
+            c, a, b = kids(m)
+            v = self.intval(c, state)
+            if v is not None:
+                return self.rhs(a if v else b, state)
         t = cx(n)
         for var, val in state["vars"].items():
             if val is not None:
@@ -537,6 +557,17 @@ class Sym:
                 l = cx(kids(m)[0])
                 if l in self.tracked or l in self.results or l in self.variables:
                     evs.append((off(m) + 10 ** 8, "assign", m))        # after the calls inside its right-hand side
+        for m, path in walk(n):
+            if m.get("kind") in ("BinaryOperator", "CompoundAssignOperator") and m.get("opcode", "").endswith("=") and \
+                    m.get("opcode") not in ("==", "!=", "<=", ">="):
+                lhs = strip(kids(m)[0])
+                if lhs.get("kind") == "DeclRefExpr" and lhs["referencedDecl"]["name"] in state["ints"]:
+                    v = self.intval(kids(m)[1], state) if m.get("kind") == "BinaryOperator" else None
+                    state["ints"][lhs["referencedDecl"]["name"]] = v
+            if m.get("kind") == "UnaryOperator" and m.get("opcode") in ("++", "--") and kids(m):
+                u = strip(kids(m)[0])
+                if u.get("kind") == "DeclRefExpr" and u["referencedDecl"]["name"] in state["ints"]:
+                    state["ints"][u["referencedDecl"]["name"]] = None
         evs.sort(key=lambda e: e[0])
         for _, kind, x in evs:
             if kind == "ask":
@@ -573,6 +604,10 @@ class Sym:
                 continue
             if k == "DeclStmt":
                 for d in kids(s):
+                    if d.get("kind") == "VarDecl" and d.get("type", {}).get("qualType") in ("int", "char", "short", "long", "_Bool") \
+                            and kids(d) and strip(kids(d)[-1]).get("kind") == "IntegerLiteral" and d.get("name") not in self.variables:
+                        state["ints"][d["name"]] = int(strip(kids(d)[-1])["value"])     # a local flag
+                        continue
                     if d.get("kind") == "VarDecl" and d.get("name") in self.variables and kids(d):
                         init = kids(d)[-1]
                         state["vars"][d["name"]] = self.variables[d["name"]](strip(init), cx(init))
@@ -596,6 +631,10 @@ class Sym:
                 if any(x in ct for x in NOISE) or not (self.has_effect(th) or (el is not None and self.has_effect(el)) or self.has_effect(c)):
                     continue                                        # logging, assertions, reference counting
                 st = self.static(ct, state)
+                if st is None:
+                    iv = self.intval(c, state)
+                    if iv is not None:
+                        st = bool(iv)
                 if st is True:
                     stmts = [th] + stmts
                     continue
@@ -622,7 +661,10 @@ class Sym:
     def lean(self, fn, doc):
         body = [c for c in kids(fn) if c.get("kind") == "CompoundStmt"][0]
         self.seen = set()
-        t = self.run([body], {"writes": [], "res": "", "asked": [], "vars": {}})
+        self.flags = set(d.get("name") for d, _ in walk(fn) if d.get("kind") == "VarDecl" and
+                         d.get("type", {}).get("qualType") in ("int", "char", "short", "long", "_Bool") and kids(d) and
+                         strip(kids(d)[-1]).get("kind") == "IntegerLiteral") - set(self.variables)
+        t = self.run([body], {"writes": [], "res": "", "asked": [], "vars": {}, "ints": {}})
         # every write to a tracked lvalue must lie on a path of the tree (none hidden in a loop, a switch, a condition)
         for m, _ in walk(fn):
             if m.get("kind") in ("BinaryOperator", "CompoundAssignOperator") and m.get("opcode", "").endswith("=") and \
@@ -931,8 +973,9 @@ def generate(bdir, t_number):
     find = [off(n) for n, _ in walk(f) if n.get("kind") == "CallExpr" and cx(kids(n)[0]) == "find_or_load_object"]
     virt = [off(n) for n, _ in walk(f) if n.get("kind") == "IfStmt" and cx(kids(n)[0]).startswith("(ob->flags &")]
     made = [off(n) for n, _ in walk(f) if n.get("kind") == "CallExpr" and cx(kids(n)[0]) in ("get_empty_object", "load_virtual_object")]
-    ok = (len(find) == 1 and virt and made and off(sites[0][0]) < find[0] < off(sites[1][0]) < min(virt) and
-          off(sites[1][0]) < min(made))
+    # (the flag test of the virtual branch is not required any more: what matters is that both tests and the blueprint lookup
+    # come before anything is made)
+    ok = (len(find) == 1 and made and off(sites[0][0]) < find[0] < off(sites[1][0]) < min(made))
     L.append("/-- clone_object: entry test < find_or_load_object < repeated test < virtual-object branch and every creation -/\n"
              "def cloneOrderOk : Nat := %d" % (1 if ok else 0))
 
@@ -943,23 +986,6 @@ def generate(bdir, t_number):
         raise TieBroken("guard:f_export_uid", "error(\"Illegal to export uid 0\") not found exactly once")
     L.append("/-- f_export_uid: when the error is raised -/\n"
              "def exportErrors (curEuid : Bool) : Bool := " + conj(sites[0][1], {"current_object->euid": "curEuid"}, "f_export_uid:error"))
-    branch = None
-    for n, _ in walk(f):
-        if n.get("kind") == "IfStmt" and off(n) > off(sites[0][0]) and len(kids(n)) == 3:
-            branch = n
-            break
-    if branch is None:
-        raise TieBroken("guard:f_export_uid", "the if/else on the target's euid was not found")
-    c, th, el = kids(branch)
-    L.append("/-- f_export_uid: when the target is refused (result 0) -/\n"
-             "def exportRefusesTarget (tgtEuid : Bool) : Bool := " + tr(c, {"ob->euid": "tgtEuid"}, "f_export_uid:target"))
-    th_t = [cx(n) for n, _ in walk(th) if n.get("kind") == "BinaryOperator" and n.get("opcode") == "="]
-    el_t = [cx(n) for n, _ in walk(el) if n.get("kind") == "BinaryOperator" and n.get("opcode") == "="]
-    L.append("/-- f_export_uid: assignments of the refusing branch / of the other branch -/\n"
-             "def exportRefuseAssign : List String := [" + ", ".join(lean_str(t) for t in th_t) + "]\n"
-             "def exportAssign : List String := [" + ", ".join(lean_str(t) for t in el_t) + "]")
-    L.append("/-- f_export_uid: every write to a uid / euid field in the function -/\n"
-             "def exportUidWrites : List String := [" + ", ".join(lean_str(t) for t in assignments(f, ("uid", "euid"))) + "]")
 
     # ---- f_seteuid ----------------------------------------------------------------------------------------------
     f = ast_function(bdir, "lib/efuns/uids.c", "f_seteuid")
@@ -970,11 +996,6 @@ def generate(bdir, t_number):
     calls = sorted((off(n), cx(kids(n)[0]) if cx(kids(n)[0]) == "bad_arg" else cx(n)) for n, _ in walk(f)
                    if n.get("kind") == "CallExpr" and
                    cx(kids(n)[0]) in ("apply_master_ob", "safe_apply_master_ob", "apply", "safe_apply", "bad_arg", "add_uid"))
-    L.append("/-- f_seteuid: its if-conditions (MASTER_APPROVED expanded; T_NUMBER = %d), the calls that matter, and every\n"
-             "    write to an euid field, each list in source order -/\n" % t_number +
-             "def seteuidIfs : List String := [" + ", ".join(lean_str(t) for t in shape) + "]\n"
-             "def seteuidCalls : List String := [" + ", ".join(lean_str(t) for _, t in calls) + "]\n"
-             "def seteuidEuidWrites : List String := [" + ", ".join(lean_str(t) for t in assignments(f, ("uid", "euid"))) + "]")
     # the refusal condition, semantically
     refusal = None
     for _, n in ifs:
